@@ -113,6 +113,24 @@ MIN_COUNTERS = {
         "solver_ok:TFQMR": 880, "systems_with_all_subsets_enumerated": 94
     },
 }
+# representations of the Jacobian blocks / outputs returned by the harness disciplines (dtype, layout, flags) and the
+# integer-function-Jacobian configurations, per derivation path; about half of what seed 0 observes
+MIN_COUNTERS["quick"].update({
+    "jac_repr:complex": 110, "jac_repr:float32": 120, "jac_repr:float64": 1600, "jac_repr:fortran": 99,
+    "jac_repr:int32": 130, "jac_repr:int64": 170, "jac_repr:mixed": 150, "jac_repr:readonly": 77,
+    "jac_repr:strided": 85, "linear_solves_measured": 9500, "out_repr:readonly": 160, "out_repr:strided": 170,
+    "requests_judged_integer_dfun_dx:adjoint": 26, "requests_judged_integer_dfun_dx:adjoint+lu": 11,
+    "requests_judged_integer_dfun_dx:direct": 28, "requests_judged_integer_dfun_dx:direct+lu": 13,
+    "requests_judged_with_integer_function_jacobians": 110, "directed_requests": 299
+})
+MIN_COUNTERS["thorough"].update({
+    "jac_repr:complex": 650, "jac_repr:float32": 710, "jac_repr:float64": 9200, "jac_repr:fortran": 560,
+    "jac_repr:int32": 670, "jac_repr:int64": 750, "jac_repr:mixed": 800, "jac_repr:readonly": 430,
+    "jac_repr:strided": 480, "linear_solves_measured": 53700, "out_repr:readonly": 980, "out_repr:strided": 1000,
+    "requests_judged_integer_dfun_dx:adjoint": 64, "requests_judged_integer_dfun_dx:adjoint+lu": 18,
+    "requests_judged_integer_dfun_dx:direct": 73, "requests_judged_integer_dfun_dx:direct+lu": 33,
+    "requests_judged_with_integer_function_jacobians": 300, "directed_requests": 299
+})
 SHARD_TIMEOUT = {"quick": 1200, "thorough": 5400}
 
 SOLVERS = ["DEFAULT", "LGMRES", "GMRES", "GCROT", "BICGSTAB", "BICG", "CGS", "TFQMR", "CG"]
